@@ -24,9 +24,10 @@ def bump(st, key): st["by_op"][key] = st["by_op"].get(key, 0) + 1
 def dot(u, v): return sum(a * b for a, b in zip(u, v))
 def matvec(rows, x): return [sum(v * x[c] for c, v in rw) for rw in rows]
 
-SCALES = [F(2), F(1, 2), F(4), F(8), F(1, 16), F(1024), F(1, 4096), F(2) ** 20, F(3), F(5, 7)]
+SCALES = [F(2), F(1, 2), F(4), F(8), F(1, 16), F(1024), F(1, 4096), F(2) ** 20, F(2) ** 40, F(1, 2 ** 40), F(3), F(5, 7)]
+TINY = F(1, 2 ** 60)    # below the absolute threshold of ruge_stuben.hpp (known finding C02-rs-absolute-eps)
 
-def twin_of(c, s):
+def twin_of(c, s, suffix="s"):
     """the same case built from s*A; apply right-hand sides unchanged, cycle right-hand side scaled
     (cycle(s*A; s*f, x) = cycle(A; f, x) for x <> 0, apply(s*A; f) = apply(A; f) / s)"""
     rows = [[(j, v * s) for j, v in rw] for rw in c.rows]
@@ -34,7 +35,7 @@ def twin_of(c, s):
     for cmd in c.script:
         if cmd[0] == "cycle": script.append(("cycle", [s * u for u in cmd[1]], cmd[2]))
         else: script.append(cmd)
-    t = ac.Case(c.cid + "s", c.coarsening, c.relax, c.cfg, c.cprm, c.damping, c.n, rows, script)
+    t = ac.Case(c.cid + suffix, c.coarsening, c.relax, c.cfg, c.cprm, c.damping, c.n, rows, script)
     t.meta = dict(c.meta); t.meta["twin_of"] = c.cid; t.meta["scale"] = s
     return t
 
@@ -68,6 +69,8 @@ def make_cases(tier, seed):
     for k, c in enumerate(cases):
         s = rs.choice(SCALES)
         if k % 3 == 0: twins.append(twin_of(c, s))
+        # Ruge-Stuben at a scale where its absolute threshold bites (n >= 3 so that there is something to coarsen)
+        if c.coarsening == "ruge_stuben" and k % 8 == 2 and c.n >= 3: twins.append(twin_of(c, TINY, "t"))
     return cases + twins
 
 def double_pairs(tier, seed):
@@ -92,44 +95,105 @@ def double_pairs(tier, seed):
         scaled = ac.Case("d%ds" % k, co, rx, cfg, cprm, damping, n, [[(j, v * s) for j, v in rw] for rw in rows],
                          [("dump",), ("apply", f, z), ("apply", g, x0), ("cycle", [s * u for u in f], x0)])
         out.append((base, scaled, s))
+        if co == "ruge_stuben" and k % 8 == 2 and n >= 3:
+            tiny = ac.Case("d%dt" % k, co, rx, cfg, cprm, damping, n, [[(j, v * TINY) for j, v in rw] for rw in rows],
+                           [("dump",), ("apply", f, z), ("apply", g, x0), ("cycle", [TINY * u for u in f], x0)])
+            out.append((base, tiny, TINY))
     return out
+
+NONFINITE = ("nan", "inf", "-inf")
+def pval(tok):
+    """a printed value: exact rational, or one of the tokens nan / inf / -inf (double build)"""
+    return tok if tok in NONFINITE else F(tok)
+def pvec(sg):
+    sg = sg.strip(); assert sg[0] == "[" and sg[-1] == "]", sg[:40]
+    return [pval(x) for x in sg[1:-1].split()]
+def pcrs(sg):
+    """'{n m | c:v c:v | ...}' -> (n, m, [[(c, value or token)]])"""
+    sg = sg.strip(); assert sg[0] == "{" and sg[-1] == "}", sg[:40]
+    parts = sg[1:-1].split("|")
+    n, m = [int(x) for x in parts[0].split()]
+    return n, m, [[(int(e.split(":")[0]), pval(e.split(":")[1])) for e in p.split()] for p in parts[1:]]
+def pdump(seg):
+    """'D n (M {A} {P} {R} | L {A} | S {A}|-)*n' -> list of (kind, A, P, R) (None where absent)"""
+    from vcheck import split_top
+    it = split_top(seg); assert it[0] == "D", seg[:40]
+    n = int(it[1]); i = 2; out = []
+    for _ in range(n):
+        k = it[i]; i += 1
+        if k == "M": out.append(("M", pcrs(it[i]), pcrs(it[i + 1]), pcrs(it[i + 2]))); i += 3
+        elif k == "L": out.append(("L", pcrs(it[i]), None, None)); i += 1
+        else: out.append(("S", None if it[i] == "-" else pcrs(it[i]), None, None)); i += 1
+    return out
+def scaled_eq(v1, v2, s):
+    """v2 = s * v1, entry by entry; non-finite tokens must coincide (s > 0)"""
+    if isinstance(v1, str) or isinstance(v2, str): return v1 == v2
+    return v2 == s * v1
+
+RS_EPS = F(1, 2 ** 51)       # amgcl::detail::eps<double>(1) = 2 * DBL_EPSILON (ruge_stuben.hpp:114, 277)
+
+def min_offdiag(o):
+    """smallest non-zero |a_ij|, i <> j, over the level matrices of the first dump of payload o"""
+    best = None
+    for seg in (o or "").split(" ; "):
+        if not seg.startswith("D "): continue
+        for lv in pdump(seg):
+            if lv[1] is None: continue
+            for i, rw in enumerate(lv[1][2]):
+                for c, v in rw:
+                    if c != i and not isinstance(v, str) and v != 0 and (best is None or abs(v) < best): best = abs(v)
+        break
+    return best
 
 def compare_scaled(o, o2, s, kinds, pre_cycles):
     """o, o2: payloads of the base case and of the case built from s*A (cycle right-hand sides
-    scaled by s); kinds: the script commands.  Returns None or a message."""
-    if o is None or o2 is None: return "no answer"
+    scaled by s); kinds: the script commands.  Returns None or (symptom, message); symptom is
+    'outcome' | 'structure' (levels, patterns, P, R) | 'matrix' (values of A_l) | 'values' (apply / cycle)."""
+    if o is None or o2 is None: return ("outcome", "no answer")
     bad = ("EXC", "CRASH", "UNSUPPORTED")
     if o.startswith(bad) or o2.startswith(bad):
         # construction must fail for both (same exception) or for none
         return None if (o.startswith("EXC") and o.split(" ")[:2] == o2.split(" ")[:2]) else \
-            "construction outcome differs: %s vs %s" % (o[:40], o2[:40])
+            ("outcome", "construction outcome differs: %s vs %s" % (o[:40], o2[:40]))
     sa, sb = o.split(" ; "), o2.split(" ; ")
-    if len(sa) != len(sb) or len(sa) != len(kinds): return "different number of script results"
+    if len(sa) != len(sb) or len(sa) != len(kinds): return ("outcome", "different number of script results")
     for i, (u, v) in enumerate(zip(sa, sb)):
         if kinds[i] == "dump":
-            la, lb = ac.parse_dump(u), ac.parse_dump(v)
+            la, lb = pdump(u), pdump(v)
             if [x[0] for x in la] != [x[0] for x in lb]:
-                return "level structure differs: %s vs %s" % ([x[0] for x in la], [x[0] for x in lb])
+                return ("structure", "level structure differs: %s vs %s" % ([x[0] for x in la], [x[0] for x in lb]))
             for lv, (x, y) in enumerate(zip(la, lb)):
-                if (x[1] is None) != (y[1] is None): return "level %d: matrix present / absent" % lv
+                if (x[1] is None) != (y[1] is None): return ("structure", "level %d: matrix present / absent" % lv)
                 if x[1] is not None:
                     (n1, m1, r1), (n2, m2, r2) = x[1], y[1]
                     if (n1, m1) != (n2, m2) or [[c for c, _ in rw] for rw in r1] != [[c for c, _ in rw] for rw in r2]:
-                        return "level %d: pattern of A differs" % lv
-                    if any(v2 != s * v1 for rw1, rw2 in zip(r1, r2) for (_, v1), (_, v2) in zip(rw1, rw2)):
-                        return "level %d: A(c*M) != c * A(M)" % lv
-                if x[2] != y[2]: return "level %d: P differs" % lv
-                if x[3] != y[3]: return "level %d: R differs" % lv
+                        return ("structure", "level %d: pattern of A differs" % lv)
+                    if not all(scaled_eq(v1, v2, s) for rw1, rw2 in zip(r1, r2) for (_, v1), (_, v2) in zip(rw1, rw2)):
+                        return ("matrix", "level %d: A(c*M) != c * A(M)" % lv)
+                if x[2] != y[2]: return ("structure", "level %d: P differs" % lv)
+                if x[3] != y[3]: return ("structure", "level %d: R differs" % lv)
         else:
-            if any(w in u or w in v for w in ("nan", "inf")):
-                if u != v: return "script step %d: non-finite results differ" % i
-                continue
-            a, b = parse_out_vec(u), parse_out_vec(v)
+            a, b = pvec(u), pvec(v)
+            if len(a) != len(b): return ("values", "script step %d: lengths differ" % i)
             if kinds[i] == "cycle" or pre_cycles == 0:
-                if a != b: return "script step %d (%s): results differ" % (i, kinds[i])
-            elif [s * y for y in b] != a:
-                return "script step %d (apply): B(c*A) f != B(A) f / c" % i
+                if a != b: return ("values", "script step %d (%s): results differ" % (i, kinds[i]))
+            elif not all(scaled_eq(y, x, s) for x, y in zip(a, b)):
+                return ("values", "script step %d (apply): B(c*A) f != B(A) f / c" % i)
     return None
+
+def scaling_record(base_out, s, coarsening, build, res):
+    """the part of a scaling failure that classify() turns into the signature"""
+    mo = min_offdiag(base_out)
+    return dict(coarsening=coarsening, build=build, symptom=res[0], scale=str(s),
+                below_rs_eps=bool(mo is not None and mo * s < RS_EPS))
+
+def classify(fail):
+    """signature of a failure.  Scaling failures: which coarsening, what differs, and whether the
+    scaled matrix has off-diagonal entries below the ABSOLUTE threshold 2^-51 that Ruge-Stuben
+    compares them with (known finding C02-rs-absolute-eps); everything else has no signature."""
+    sc = fail.get("scaling")
+    if not sc: return {}
+    return dict(oracle="scaling", coarsening=sc["coarsening"], symptom=sc["symptom"], below_rs_eps=sc["below_rs_eps"])
 
 def run(ctx, cases_override=None):
     cases = make_cases(ctx["tier"], ctx["seed"])
@@ -137,26 +201,28 @@ def run(ctx, cases_override=None):
     if cases_override:
         ids = set(l.split(" ", 1)[0] for l in cases_override)
         # a twin needs its base case and vice versa
-        ids |= set(i[:-1] for i in ids if i.endswith("s")) | set(i + "s" for i in ids)
+        ids |= set(c.meta["twin_of"] for c in cases if c.cid in ids and "twin_of" in c.meta)
+        ids |= set(c.cid for c in cases if c.meta.get("twin_of") in ids)
         sel = [c for c in cases if c.cid in ids]
         seld = [p for p in dpairs if p[0].cid in ids or p[1].cid in ids]
         if sel or seld: cases, dpairs = sel, seld
     fails, impl, model, levels = ac.run_cases(ctx, cases) if cases else ([], {}, {}, {})
     st = ctx["stats"]
-    def fail(c, msg, got=None, exp=None):
+    def fail(c, msg, got=None, exp=None, **extra):
         fails.append(dict(kind="counterexample", case=c.impl_line(), impl=got, model=exp, op="amg." + c.coarsening,
-                          size=len(c.impl_line()), oracle=dict(statement=msg), theorem="C02 oracle on the implementation: " + msg))
+                          size=len(c.impl_line()), oracle=dict(statement=msg), theorem="C02 oracle on the implementation: " + msg, **extra))
     byid = dict((c.cid, c) for c in cases)
     for c in cases:
         o = impl.get(c.cid)
         # ---- scaling clause, exact arithmetic: twin built from s*A
         if "twin_of" in c.meta and c.meta["twin_of"] in byid:
             st["oracle_checks"] += 1
-            msg = compare_scaled(impl.get(c.meta["twin_of"]), o, c.meta["scale"], [cmd[0] for cmd in c.script], c.cfg["pre_cycles"])
             b0 = impl.get(c.meta["twin_of"]) or ""
+            res = compare_scaled(b0 or None, o, c.meta["scale"], [cmd[0] for cmd in c.script], c.cfg["pre_cycles"])
             bump(st, "oracle:scaling-exact")
             if b0.startswith("D ") and not b0.startswith("D 1 "): bump(st, "oracle:scaling-exact-multilevel")
-            if msg: fail(c, "scaling by c = %s (exact arithmetic): %s" % (c.meta["scale"], msg), (o or "")[:300], (impl.get(c.meta["twin_of"]) or "")[:300])
+            if res: fail(c, "scaling by c = %s (exact arithmetic): %s" % (c.meta["scale"], res[1]), (o or "")[:300], b0[:300],
+                         scaling=scaling_record(b0, c.meta["scale"], c.coarsening, "exact", res))
         if not o or o.startswith(("EXC", "CRASH", "UNSUPPORTED")): continue
         segs = [parse_out_vec(s) for s in o.split(" ; ")[1:]]
         n = c.n; m = c.meta
@@ -199,18 +265,19 @@ def run(ctx, cases_override=None):
     for b, s2, s in dpairs: by_drv.setdefault("amgd_%s@poison" % b.coarsening, []).append((b, s2, s))
     for d, ps in by_drv.items():
         if d not in ctx["cpp"]: continue
-        lines = [x.impl_line() for p in ps for x in p[:2]]
+        lines = list(dict((x.cid, x.impl_line()) for p in ps for x in p[:2]).values())
         out = ctx["run_driver"](ctx["cpp"][d], lines, timeout=1500)
         account(ctx, lines, out)
         for b, s2, s in ps:
             st["oracle_checks"] += 1
-            msg = compare_scaled(out.get(b.cid), out.get(s2.cid), s, [cmd[0] for cmd in b.script], b.cfg["pre_cycles"])
             b0 = out.get(b.cid) or ""
+            res = compare_scaled(b0 or None, out.get(s2.cid), s, [cmd[0] for cmd in b.script], b.cfg["pre_cycles"])
             bump(st, "oracle:scaling-double")
             if b0.startswith("D ") and not b0.startswith("D 1 "): bump(st, "oracle:scaling-double-multilevel")
-            if msg:
-                fails.append(dict(kind="counterexample", case=s2.impl_line(), impl=(out.get(s2.cid) or "")[:300], model=(out.get(b.cid) or "")[:300],
+            if res:
+                fails.append(dict(kind="counterexample", case=s2.impl_line(), impl=(out.get(s2.cid) or "")[:300], model=b0[:300],
                                   op="amgd." + b.coarsening, size=len(s2.impl_line()), build="double",
-                                  oracle=dict(statement="scaling by 2^k in binary64, bitwise: " + msg, scale=str(s)),
-                                  theorem="C02 oracle on the implementation (double build): B(2^k A) = 2^-k B(A) bitwise: " + msg))
+                                  oracle=dict(statement="scaling by 2^k in binary64, bitwise: " + res[1], scale=str(s)),
+                                  scaling=scaling_record(b0, s, b.coarsening, "double", res),
+                                  theorem="C02 oracle on the implementation (double build): B(2^k A) = 2^-k B(A) bitwise: " + res[1]))
     return fails
